@@ -31,9 +31,13 @@
       machine is reproduced by the RV64 machine (`runLines` = `run` after `parseText`): it reaches `cleanup`
       with `v` in `X10`.  `C08_int_programs_text`: the same for `RV.run` on the TEXT, given `C08_TextLoads`.
   KEPT AS `def : Prop`:
-  * `C08_loader_statement`  THE ONLY REMAINING LOADER FACT: the machine's `parseText` reads the text printed
-      by `into_rv64_routine` back, up to the text of comments, without malformed hooks (a print → parse round
-      trip for RV64 does not exist yet; Scc/X86/Loader*.lean is the model for it).
+  * `C08_loader_statement`  the loader fact AS FIRST STATED: the machine's `parseText` reads the text printed
+      by `into_rv64_routine` back, up to the text of comments, without malformed hooks.  REFUTED in
+      Props/C14LoaderRV.lean (`C08_loader_statement_false`: the hypothesis `codeTextOK` is too weak — the first
+      item must be a label, registers must exist, a label must not start with `//`, a `#ctx [` comment must be a
+      well-formed hook).  The corrected statement `C14R_loader_statement` is PROVED there (`C14R_loader`), every
+      compiled routine satisfies its hypothesis (`C14R_routine_textOK`), and `C08_programs_text_loaded` is the
+      run theorem on the text without any loader hypothesis.
   * `C08_int_programs_statement`  `C08_int_programs` without its decidable side hypotheses (success of the
       mock code generator, `CodeFits`, pairwise distinct labels of the routine, routine below 2^64, `fuel + 1 < 2^64`).
 -/
@@ -301,10 +305,10 @@ def codeTextOK (code : Code) : Bool :=
    | some l => !l.isEmpty && l.toList.all (fun c => c != ' ' && c != '\n' && c != '\t' && c != '\r')
    | none => true)
 
-/-- THE LOADER FACT (NOT proved; the only remaining `def : Prop` between `C08_int_programs` and the text):
-the printed text of a routine whose items are text-safe (and whose registers are `X0..X31`, which is the
-case for everything the backend emits) is read back by the machine's parser, up to the text of comments,
-and a hook comment of the generator (`#ctx [x:prd y:ext …]`) is never malformed. -/
+/-- THE LOADER FACT AS FIRST STATED — FALSE (`C08_loader_statement_false`, Props/C14LoaderRV.lean): `codeTextOK`
+does not ask for the first item to be a label (`into_rv64_routine` glues `// actual code` and the first printed item
+together), for registers `X0..X31`, for labels not starting with `//`, for well-formed hooks.  The corrected
+statement is `C14R_loader_statement`, proved as `C14R_loader`; every compiled routine satisfies its hypothesis. -/
 def C08_loader_statement : Prop :=
   ∀ instrs : List Code, (∀ code ∈ instrs, codeTextOK code = true) → C08_TextLoads instrs
 
